@@ -27,7 +27,7 @@ structure Inv (s : St) : Prop where
   pollSleep : ∀ t d i w, s.pc t = .pollSleep d i w → d.t0 + (i + Poll.stepMs) * 1000000 ≤ w
   good : Good s.flog
 
-theorem inv_init (count now eintr enosys : Nat) : Inv (init count now eintr enosys) := by
+theorem inv_init (count now eintr enosys : Nat) (tf : Bool := false) : Inv (init count now eintr enosys tf) := by
   constructor <;> simp [init, Good]
 
 theorem inv_step {s s' : St} {t : Tid} {a : Act Op} (h : Inv s) (hs : step s t a = some s') : Inv s' := by
@@ -53,16 +53,18 @@ theorem inv_step {s s' : St} {t : Tid} {a : Act Op} (h : Inv s) (hs : step s t a
     all_goals
       try simp only [done, goto] at hs
       (repeat' split at hs) <;> simp at hs <;> (try subst hs) <;>
-        (refine ⟨?_, ?_, ?_, ?_, ?_⟩ <;> intros <;> grind [upd, Good, expired_iff])
+        (refine ⟨?_, ?_, ?_, ?_, ?_⟩ <;> intros <;> grind [upd, Good, expired_iff, mkDeadline_ok])
 
 theorem inv_reach {count now eintr : Nat} {s : St} (h : Reach count now eintr s) : Inv s := by
   induction h with
   | init e => exact inv_init _ _ _ e
+  | initP e tf => exact inv_init _ _ _ e tf
   | step _ hs ih => exact inv_step ih hs
 
 theorem init0_reach {count now eintr : Nat} {s : St} (h : Reach count now eintr s) : s.init0 = count := by
   induction h with
   | init _ => rfl
+  | initP _ _ => rfl
   | step _ hs ih =>
     rename_i s1 s2 t a _
     rw [← ih]
